@@ -35,7 +35,7 @@ impl Property for C12 {
         "enumerated phase (complete): every set of at most 4 oriented triangles over 5 labelled vertices and at most 3 over 6 vertices (both windings of every vertex triple); generated phase: meshes from the harness generators (grids with random diagonals, L-shapes, tubes, fans, boxes, octahedra, icospheres, tori, prisms) with holes, per-face flips, second components, vertex-only (bow-tie) contacts, shuffled numbering; voxel sets (blobs, diagonal-only contacts, negative coordinates); index-pair lists that are shuffled disjoint unions of directed paths and cycles plus arbitrary pairs; the library's box and cylinder generators. Every case runs in a killable worker (10 s deadline, normal cost < 1 ms) and every hash-map-dependent result is recomputed 8 times and compared as canonical sets. Oracle: harness edge multisets and union-find. Non-trivial: at least two faces sharing an edge and at least one boundary edge (meshes); at least two clusters/chains (voxels/pairs). Distinct = distinct canonical JSON."
     }
     fn cases(t: Tier) -> u32 {
-        t.pick(30_000, 600_000)
+        t.pick(150_000, 600_000)
     }
     fn isolated() -> Option<Duration> {
         Some(Duration::from_secs(10))
